@@ -148,6 +148,18 @@ def run(ctx):
     ctx.clause = 'D2c'
     r, Ir = ctx.run(rec, no_inline=RECORD_NO_INLINE)
     record_block_requests(ctx, rec, Ir)
+    # "...and advances its clock accordingly": every source class advances its own clock by exactly the samples it hands out --
+    # for an array that is num_samples, not the (max_delay longer) background request of the first call of an observation
+    ctx.clause = 'D5'
+    for cls_ in ('voltage.antenna.Antenna', 'voltage.antenna.MultiAntennaArray'):
+        gs = ctx.func(cls_ + '.get_samples')
+        rg, Ig = ctx.run(gs, max_depth=0, expand=False)
+        own = [e for e in Ig.events if e.kind == 'store' and e.data.get('target') == 'attr' and e.data.get('name') == 't_start'
+               and e.data['base'].key == sym('self').key]
+        ctx.require(own, f'{cls_}.get_samples no longer advances its own clock')
+        ctx.formula('FORMULA', f'{cls_.split(".")[-1]}.get_samples advances the source clock by num_samples * dt', gs, own[-1].data['value'],
+                    ctx.spec(gs, 'self.t_start + num_samples * self.dt', I=ctx.interp(expand=False)), node=own[-1].node,
+                    construct='self.t_start += ... [source clock]')
 
 
 def _with_heap(ctx, I, fi):
